@@ -433,7 +433,40 @@ def c07(ctx):
     ctx.assumptions += ["non-isomorphic pairs that pass the cheap filters are not judged (documented incompleteness of the algorithm)"]
 
 
+def c03(ctx):
+    binary = build()
+    mc = Bg(lambda: model_check(ctx, "MC_NQuads", workers=2, timeout=600))
+    tr = os.path.join(ctx.traces, "nq.ndjson")
+    n = 2500 if ctx.quick() else 40000
+    sv(binary, ["nq", "--n", n, "--seed", ctx.seed, "--out", tr], ctx=ctx)
+    trace = read_trace(tr)
+    mism = trace_check(ctx, "Trace_NQuads", tr, timeout=3000)
+    bad = set()
+    for line, fields in mism:
+        e = trace[line - 1]
+        bad.add(line)
+        code = fields[0]
+        if e["ev"] == "RT":
+            key = "%s/%s->%s" % (code, e["ser"], e["parser"])
+            detail = "%s: in = { %s } ; text = %r ; reparse: %s %s" % (code, show_quads(e["in"]), uncps(e["text"])[:300], e["out"]["msg"][:150], show_quads(e["out"]["quads"])[:300])
+        else:
+            key, detail = "panic", "panic: %s" % e.get("msg")
+        ctx.violations.append({"key": key, "detail": detail, "event": e, "trace": tr, "line": line})
+    ctx.traces_validated += len(trace) - len(bad)
+    for e in trace:
+        if e["ev"] == "RT":
+            ctx.distinct.add(h([e["ser"], e["parser"], e["in"]]))
+    ctx.samples += [{"in": show_quads(e["in"]), "text": uncps(e["text"])} for e in trace[700:1500:333] if e["ev"] == "RT"]
+    mc.join()
+    ctx.rule = ("MC_NQuads: the independent reader and the minimal escaping are mutually inverse on all lexical forms of length <= 3 over 17 escape-relevant characters (5,220 strings). "
+                "All 576 two-character lexical forms over 24 characters (quotes, backslash, CR/LF/TAB, C0/C1 controls, DEL, U+2028, combining mark, non-BMP, U+FFFD, markup), every legal label of a 12-label pool, "
+                "and %d random strict / RDF-star / generalized datasets are serialised by NtSerializer/NqSerializer; TLC reads the emitted text with the TLA+ reader and compares it, the streaming re-parse "
+                "(nt/nq/gnq) and the collector re-parse with the input. distinct = distinct (serializer, parser, dataset)" % n)
+    ctx.assumptions += ["language tags are compared case-insensitively (term equality); labels, IRIs and tags are drawn from what the toolkit's own validators accept, as the property's quantifier says"]
+
+
 FAMILIES = {
+    "C03": c03,
     "C07": c07,
     "C09": c09,
     "C17": c17,
